@@ -38,7 +38,7 @@ DECIDES = (
     'DFA: only epsilon-closed sets become DFA states; epsilon moves are not copied as transitions while special and character events are; link_to and '
     'get_epsilon use the same falsy key.  '
     'EPS: the closure functions nfa_to_dfa calls (per state and per set of states) return exactly the reflexive-transitive closure of the epsilon moves on every labelled epsilon graph on '
-    '3 states (all cycles, diamonds, chains; successor sets visited in every order) for every order of requests - the closures are memoised on the nodes - with every request repeated at the '
+    '3 states (all cycles, diamonds, chains; successor sets visited along every total order of the states) for every order of requests - the closures are memoised on the nodes - with every request repeated at the '
     'end, and on every graph on 4 states with at most 4 moves that is reachable from its first state; non-termination and exceptions count as failures.  '
     'INPUT: from the state set by Scanner.__init__, the input_state dispatch feeds BOL x EOL \\n BOL y EOL EOF \'\' \'\' for the text "x\\ny"<eof>.  '
     'EOF: the decision table of Scanner.scan_a_token over (machine returned an action?) x (scan advanced past start_pos?) x (current symbol in EOF, EOL, BOL, \'\', None, '
@@ -62,7 +62,7 @@ NOT_DECIDED = ('epsilon closures on graphs with more than 4 states or more than 
                'deliberately not reported.  The DESIGN clause "strict > in set_action/highest_priority_action" is replaced by the evaluated pipeline: with unique '
                'token numbers >= is behaviour-preserving, so demanding the operator itself would be a brittle proxy.')
 ASSUMPTIONS = ['token numbers stay far below 2**31 (priorities are C ints in the compiled module)',
-               'NFA nodes hash by their address (Machines.Node.__hash__ = id(self) & maxint), so a set of nodes can be iterated in any order (C50-EPS evaluates every order)',
+               'NFA nodes hash by their address (Machines.Node.__hash__ = id(self) & maxint), so a set of nodes can be iterated in any order (C50-EPS evaluates every total order of the states)',
                'the BOL pseudo-character is only ever fed at the start of the input and after a newline (decided by C50-INPUT for the current dispatch)']
 
 P = 'Cython/Plex/'
